@@ -84,7 +84,7 @@ CHECKS["C05"] = {
             "is indented, or it directly follows an entry line; distinct by construction",
     "deadline": {"quick": 100, "thorough": 1200},
     "parts": [
-        {"name": "insert", "harness": "c05", "variant": "asan", "quick": ["--p0", 2, "--p1", 3, "--p2", 4], "thorough": ["--p0", 2, "--p1", 4, "--p2", 6],
+        {"name": "insert", "harness": "c05", "variant": "asan", "quick": ["--p0", 2, "--p1", 3, "--p2", 6], "thorough": ["--p0", 2, "--p1", 4, "--p2", 7],
          "deadline_share": 0.6, "floor": {"quick": 100000, "thorough": 1000000}},
         {"name": "insert-3lines", "harness": "c05", "variant": "asan", "tiers": ["thorough"], "thorough": ["--p0", 3, "--p1", 3],
          "deadline_share": 0.4, "floor": {"thorough": 1000000}},
@@ -109,7 +109,7 @@ CHECKS["C04"] = {
          "deadline_share": 0.4, "floor": {"quick": 100000, "thorough": 1000000}},
         {"name": "lines", "harness": "c04", "variant": "asan", "quick": ["--p0", 1, "--p1", 2, "--p2", 3], "thorough": ["--p0", 1, "--p1", 3, "--p2", 4],
          "deadline_share": 0.4, "floor": {"quick": 50000, "thorough": 1000000}},
-        {"name": "mergepairs", "harness": "c04", "variant": "asan", "quick": ["--p0", 2, "--p1", 3, "--p2", 4], "thorough": ["--p0", 2, "--p1", 4, "--p2", 6],
+        {"name": "mergepairs", "harness": "c04", "variant": "asan", "quick": ["--p0", 2, "--p1", 3, "--p2", 6], "thorough": ["--p0", 2, "--p1", 4, "--p2", 7],
          "deadline_share": 0.2, "floor": {"quick": 1000, "thorough": 10000}},
     ],
     "assumptions": ["bytes outside the 13-symbol structural alphabet behave like one of its members (letter / 8-bit byte)",
@@ -123,13 +123,13 @@ CHECKS["C01"] = {
                   "materialised on tmpfs and read by the real econf_readConfigWithCallback for 15 parameter shapes; return code, the sequence of paths "
                   "given to the callback and the resulting (section,key)->value map are compared with a reference written from the statement; file contents "
                   "encode which files were applied and the relative order of every pair",
-    "level_note": "bounded: name universe of 5 (quick) / 6 (thorough) names for the default shape plus a second universe of 3 / 5 names (dot file, bare suffix, x.conf.bak), 2-3 / 4 names for the other shapes; C locale only (alphasort = byte order); "
+    "level_note": "bounded: name universe of 4 (quick) / 6 (thorough) names for the default shape plus a second universe of 4 / 6 names (dot file, name without suffix, thorough: bare suffix, x.conf.bak), 2-3 / 4 names for the other shapes; C locale only (alphasort = byte order); "
                   "trusted: reference in harness/tree.h, tmpfs semantics, ASan/UBSan",
     "rule": "case = (parameter shape, tree); non-trivial = at least two files applied or at least one file masked; distinct by construction; universe contains "
             "names whose byte order differs from numeric (10-a < 9-b) and dictionary (B < a) order, a name without suffix, (thorough) a dot file, the bare suffix and x.conf.bak",
     "deadline": {"quick": 110, "thorough": 1500},
     "parts": [
-        {"name": "trees", "harness": "c01", "variant": "asan", "quick": ["--p0", 5, "--p1", 2], "thorough": ["--p0", 6, "--p1", 4],
+        {"name": "trees", "harness": "c01", "variant": "asan", "quick": ["--p0", 4, "--p1", 2], "thorough": ["--p0", 6, "--p1", 4],
          "floor": {"quick": 100000, "thorough": 1000000}},
     ],
     "assumptions": ["only the C/POSIX locales exist in the image, so strcoll order = byte order",
@@ -321,7 +321,9 @@ CHECKS["C17"] = {
     "deadline": {"quick": 110, "thorough": 1200},
     "parts": [
         {"name": "metadata", "harness": "c17", "variant": "asan", "quick": ["--p0", 3, "--p1", 1], "thorough": ["--p0", 4, "--p1", 2, "--p2", 1],
-         "floor": {"quick": 100000, "thorough": 1000000}},
+         "deadline_share": 0.95, "floor": {"quick": 100000, "thorough": 1000000}},
+        {"name": "merged-path", "harness": "c17", "variant": "asan", "shards": 2, "quick": ["--p3", 1], "thorough": ["--p3", 1],
+         "deadline_share": 0.05, "floor": {"quick": 20, "thorough": 20}},
     ],
     "assumptions": ["values longer than the stdio buffer are C14's subject"],
 }
